@@ -228,6 +228,7 @@ func c13classify(dump string) string {
 
 func c13(ctx *Ctx) {
 	ctx.Stats.Rule = "dynamic search only (the deciding obligation is the translator-regenerated lock-path check): G goroutines x iters (Listen; Close) on one ListenerManager in a child process with a progress watchdog; a stuck run is classified by the repo methods on the stacks of goroutines blocked in Mutex.Lock; non-trivial = runs with at least 2 goroutines on a shared address"
+	managerCrossKind(ctx, "C13")
 	exe, _ := os.Executable()
 	runs := []struct {
 		mode     string
